@@ -171,8 +171,9 @@ def install():
         if STATE['observe'] == 3:
             from jesse.routes import router
             stored = {}
+            alltf = {r['timeframe'] for r in router.all_formatted_routes} | {'1m'}     # every considered timeframe is stored for every symbol
             for r in router.all_formatted_routes:
-                for tf in {r['timeframe'], '1m'}:
+                for tf in alltf:
                     try:
                         stored['%s|%s' % (r['symbol'], tf)] = store.candles.get_candles(r['exchange'], r['symbol'], tf).tolist()
                     except Exception as e:
